@@ -179,12 +179,15 @@ OVERRIDES = {
          "larger than 64 KiB, multi-byte block counts, every sync-marker byte; hence 'other'."),
    note="Trusted: stream model (eof_hit = some read returned fewer bytes than asked for); codecs' decompressors as may-raise externals.",
    technique="contract-based deductive verification of the short-read behaviour of decoder, readers, block readers and container iterators, and of the sync check; bounded truncation / corruption enumeration"),
- "C07": dict(cat="other", design="0.3, 7/C07",
+ "C07": dict(cat="other", design="0.3, 0.17, 7/C07",
    text=("Deductive: Writer.dump / write / flush / write_block and the codec block writers under contract: every operation appends "
          "at the append position only (so the header is never touched), write_block first emits the pending block, and -- behaviour "
-         "'anydatum' -- a write that raises leaves buffer, count and file exactly as they were. The induction over operation histories "
+         "'anydatum' -- a write that raises leaves buffer, count and file exactly as they were, whatever Python value the record is. "
+         "What that rests on is verified too: behaviour 'anydatum' of every BinaryEncoder method and of every writer write_* / "
+         "write_data (generated contracts): with an arbitrary datum they only ever append to the stream, also when they raise "
+         "part-way (no contract on a repository function is assumed any more). The induction over operation histories "
          "(and the append/re-open path of Writer.__init__) is not mechanised: the bounded stand-in replays random histories."),
-   note="Trusted: write_data[anydatum] (append-only also when raising) is an assumed contract; stream model; codecs.",
+   note="Domain: well-formed schemas without logical types whose defaults are data (DEFAULTS_DATA). Trusted: stream model; codecs.",
    technique="contract-based deductive verification of each Writer operation incl. exceptional postconditions; bounded history replay"),
  "C09": dict(cat="other", design="0.3, 7/C09",
    text=("Deductive: write_union is verified against SEL, the statement's selection rule written as specification functions "
@@ -206,7 +209,7 @@ OVERRIDES = {
          "'accepted => the writer encodes and round-trips' and logical-type values -- bounded stand-in; hence 'other'."),
    note=("Domain of the contracts: parsed schemas without logical types whose field defaults are valid Python data (DEFAULTS_DATA); "
          "outside it validate deviates from the statement -- known finding KF12, reported by the bounded part. Trusted: z3, the pyvc "
-         "translator, the data-model assumption that module sentinels (NoValue) are never container elements, write_data[anydatum]."),
+         "translator, the data-model assumption that module sentinels (NoValue) are never container elements."),
    technique="contract-based deductive verification (AST->VC, z3) of every validator incl. exceptional postconditions; bounded differential check against the same executable predicate"),
  "C08": dict(cat="other", design="0.3, 0.10, 0.13, 7/C08",
    text=("Deductive: (a) alignment under schema resolution -- for every reader (read_null ... read_record, read_union, read_data), "
@@ -222,7 +225,7 @@ OVERRIDES = {
          "named-type reporting crash). Trusted: z3, pyvc translator, stream model; reader schemas are arbitrary values (no assumption)."),
    technique="contract-based deductive verification of stream alignment under resolution (every reader, exceptional exits allowed) and of the promotion / enum-default helpers; bounded differential checking against an executable resolution oracle"),
  "C16": dict(cat="other", design="0.3, 0.16, 7/C16",
-   text=("Deductive, for date, time-millis, time-micros, the four timestamp types and the two decimal writers (15 of the 20 converter "
+   text=("Deductive, for date, time-millis, time-micros, the four timestamp types and the two decimal writers (16 of the 19 converter "
          "functions): prepare_date / prepare_time_* return exactly the integer the specification prescribes (days from 1970-01-01; "
          "units after midnight, truncated) and the readers build, for EVERY value of the stored domain, the object with exactly those "
          "components (four arithmetic round-trip lemmas); prepare_timestamp_* store the whole units from the UTC epoch to the instant of "
